@@ -33,6 +33,14 @@ import (
 
 type fl = float32
 
+// tolerances of the numerical ellipse judge (relative radial deviation) and the largest deviations measured
+const (
+	pathArcTol  = 1e-4 // addArc: cubics spanning <= pi/8 of ellipse parameter
+	shapeArcTol = 5e-4 // rect corners / circle / ellipse: one cubic per quarter, control distance 4(sqrt2-1)/3 (2.73e-4)
+)
+
+var devPath, devRect, devEllipse float64
+
 // drawn is what one svg.Parse + Draw produced.
 type drawn struct {
 	rec  *render.Rec
@@ -120,6 +128,9 @@ func Run(tier string, seed uint64, modelPath, repo string, out *res.Result) erro
 	if err != nil {
 		return err
 	}
+	if err := runCorpus(m, out); err != nil {
+		return err
+	}
 	if err := runPaths(m, r.Sub(), nPath, false, fonts, out); err != nil {
 		return err
 	}
@@ -138,10 +149,12 @@ func Run(tier string, seed uint64, modelPath, repo string, out *res.Result) erro
 	if err := runUse(m, r.Sub(), nUse, out); err != nil {
 		return err
 	}
-	if err := runRefs(r.Sub(), nRef, out); err != nil {
+	if err := runRefs(m, r.Sub(), nRef, out); err != nil {
 		return err
 	}
 	out.ModelCalls = m.N
+	out.Notes = append(out.Notes, fmt.Sprintf("largest radial deviation from the ellipse measured on accepted curves: path arcs %.3g (tolerance %.0e), rounded rect corners %.3g, circle/ellipse %.3g (tolerance %.0e)",
+		devPath, pathArcTol, devRect, devEllipse, shapeArcTol))
 	return nil
 }
 
@@ -234,7 +247,7 @@ func runPaths(m *mp.Model, r *rng.R, n int, arcs bool, fonts text.FontConfigurat
 			cmds = append(cmds, genCmd(cr, rng.Pick(cr, byte('A'), byte('a')), true))
 		}
 		var ft feats
-		d := pathText(cr, cmds, &ft, cr.P(1, 10))
+		d := pathText(cr, cmds, &ft, true)
 		nontrivial := len(cmds) >= 3
 		for _, c := range cmds {
 			if len(c.groups) > 1 {
@@ -293,12 +306,8 @@ func runPaths(m *mp.Model, r *rng.R, n int, arcs bool, fonts text.FontConfigurat
 			implTxt = "error: " + implErr
 			out.Hit(stream + ":impl-error=" + strings.SplitN(implErr, ":", 2)[0])
 		}
-		// correspondence (outside the model's domain: a multi-group arc whose FIRST group has a zero radius —
-		// findEllipseCenter then writes NaN/Inf radii back into the slot every later group is drawn with)
-		outside := zeroRadiusArc(model.ops)
+		// correspondence
 		switch {
-		case outside:
-			out.Hit(stream + ":corr-skipped-NaN-radii")
 		case !model.ok && implErr == "":
 			out.Add(res.Finding{Kind: "corr", Op: "corr:path", Input: d, Impl: implTxt, Model: ans.Xs[1].String(), Reason: "model reports an error, implementation draws", Seed: caseSeed})
 		case !model.ok:
@@ -313,10 +322,6 @@ func runPaths(m *mp.Model, r *rng.R, n int, arcs bool, fonts text.FontConfigurat
 			if hasQuad(d) {
 				md.cubicTol = tol20
 			}
-			if ft.upperE {
-				// the code splits the number at 'E': the pieces are outside the exactness domain
-				md = cmpMode{lineTol: tol20, cubicTol: tol20, approxHit: &hit}
-			}
 			if mm := walk(impl, model.ops, md); mm != nil {
 				out.Add(res.Finding{Kind: "corr", Op: "corr:path", Input: d, Impl: implTxt, Model: ans.Xs[1].String(), Reason: mm.String(), Seed: caseSeed})
 			}
@@ -330,22 +335,12 @@ func runPaths(m *mp.Model, r *rng.R, n int, arcs bool, fonts text.FontConfigurat
 		case !spec.ok:
 			return fmt.Errorf("spec rejects a generated path %q", d)
 		case implErr != "":
-			key := ""
-			switch {
-			case ft.upperE && !ft.expPlus:
-				key = "exponent-upper-E"
-			case ft.expPlus && !ft.upperE:
-				key = "exponent-plus-sign"
-			}
 			out.Add(res.Finding{Kind: "judge", Op: "judge:path", Input: d, Impl: implTxt, Model: ans.Xs[2].String(),
-				Reason: "path data of the SVG grammar is rejected (the whole image is dropped)", Key: key, Seed: caseSeed})
+				Reason: "path data of the SVG grammar is rejected (the whole image is dropped)", Seed: caseSeed})
 		default:
-			md := cmpMode{judge: true, lineTol: 1e-6, cubicTol: 1e-6, arcTol: 1e-3}
+			md := cmpMode{judge: true, lineTol: 1e-6, cubicTol: 1e-6, arcTol: pathArcTol, devMax: &devPath}
 			if mm := walk(impl, spec.ops, md); mm != nil {
 				key := pathKey(cmds, origin, mm)
-				if ft.upperE {
-					key = "exponent-upper-E"
-				}
 				out.Add(res.Finding{Kind: "judge", Op: "judge:path", Input: d, Impl: implTxt, Model: ans.Xs[2].String(),
 					Reason: mm.String(), Key: key, Seed: caseSeed})
 			} else {
@@ -424,8 +419,7 @@ func runMalformed(m *mp.Model, r *rng.R, n int, out *res.Result) error {
 			md := cmpMode{lineTol: tol20, cubicTol: tol20}
 			if hasNonFinite(impl) {
 				out.Hit("malformed:non-finite-skipped")
-			} else if zeroRadiusArc(model.ops) {
-				out.Hit("malformed:corr-skipped-NaN-radii")
+
 			} else if mm := walk(impl, model.ops, md); mm != nil {
 				bad = mm.String()
 			}
@@ -436,17 +430,6 @@ func runMalformed(m *mp.Model, r *rng.R, n int, out *res.Result) error {
 		}
 	}
 	return nil
-}
-
-// zeroRadiusArc: the model drew a later arc group with a first group whose radius is zero; the code has
-// written NaN/Inf radii back into that slot (outside the rational model).
-func zeroRadiusArc(ms []mop) bool {
-	for _, m := range ms {
-		if m.k == 'A' && (m.f[0] == 0 || m.f[1] == 0) {
-			return true
-		}
-	}
-	return false
 }
 
 func hasNonFinite(os []op) bool {
